@@ -4,7 +4,8 @@
    order - the loop under every schedule is such a sequence (impl_loop_iteration_steps).  [is_fault s = None]: no assert of the
    code has failed so far (impl_no_fault: holds for every state reachable in a build). *)
 From LLB Require Import Engine.Rules Engine.Spec Engine.Impl.
-From LLB Require Import Engine.ImplProofs Engine.ImplProofsMono Engine.ImplProofsLoop Engine.ImplProofsInv9.
+From LLB Require Import Engine.ImplProofs Engine.ImplProofsMono Engine.ImplProofsLoop Engine.ImplProofsInv9 Engine.ImplProofsStall.
+From LLB Require Engine.FindCycle.
 Local Open Scope N_scope.
 
 (* one iteration of the loop, under any schedule, is a sequence of steps *)
@@ -45,3 +46,32 @@ Theorem impl_waitcount : forall rules env F ord syncp s0 root s,
   forall t ti, aget (is_tasks s) t = Some ti -> ti_wait ti = outstanding_count s t.
 Proof. exact waitcount. Qed.
 Print Assumptions impl_waitcount.
+
+(* The stalled engine (C07).  If an iteration does no work, nothing is computing and the stall test fires, and the requested key is
+   itself unfinished (it has a task or is being scanned), then every node reachable from it in findCycle's successor graph waits on
+   something - the premise no_dead_end of Properties_C07.c07_fc_stall_finds_cycle - and findCycle (with the linear fuel the model
+   gives it) reports a non-empty cycle.  Without "the requested key is unfinished" the statement is false: impl_stall_dead_end_witness. *)
+Theorem impl_stall_no_dead_end : forall rules env F ord syncp stalled s0 root s fuel comps s',
+  in_build rules env F ord syncp s0 root s ->
+  loop_iteration_gen rules env F ord syncp stalled fuel s comps = (s', StStall) ->
+  (aget (is_tasks s') root <> None \/ kind_of s' root = KScanning) ->
+  FindCycle.no_dead_end (wait_graph s') root /\
+  exists l, FindCycle.findcycle_names (wait_graph s') root (fc_linear_fuel (wait_graph s')) = FindCycle.FcDone l /\ l <> [].
+Proof. exact stall_finds_cycle. Qed.
+Print Assumptions impl_stall_no_dead_end.
+
+(* every edge (a, b) of that graph ("b waits on a") is real: a is a key the rule of b may request (request, single-use request,
+   must-follow, branch request) or a recorded dependency of b *)
+Theorem impl_edges_real : forall rules env F ord syncp s0 root s a b,
+  in_build rules env F ord syncp s0 root s -> In (a, b) (wait_graph s) ->
+  In a (requestable (rules b)) \/ In a (map d_key (res_deps (res_of s b))).
+Proof. exact edges_real. Qed.
+Print Assumptions impl_edges_real.
+
+(* when executeTasks returns true (repaired stall test, commit e39d106) the engine is quiescent again: no task, nothing queued, no
+   rule left IsScanning - so the next build starts from a state all the theorems above apply to *)
+Theorem impl_done_quiescent : forall rules env F ord syncp s0 root s fuel comps s',
+  in_build rules env F ord syncp s0 root s ->
+  loop_iteration rules env F ord syncp fuel s comps = (s', StDone) -> quiescent s'.
+Proof. exact done_quiescent. Qed.
+Print Assumptions impl_done_quiescent.
